@@ -53,6 +53,9 @@ def crash_key_of(text):
             loc = loc.split("/registry/src/")[1].split("/", 1)[1]
         msg = m.group(2)
         # drop quoted payloads (type dumps) and a leading `<location> #<expr> : ` prefix
+        if " is out of bounds of `" in msg or " is not a char boundary" in msg:
+            # the payload is the user's text and may itself contain backticks
+            msg = msg.split(" of `")[0].split("; it is inside")[0]
         msg = re.sub(r"`[^`]*`", "`_`", msg)
         msg = re.sub(r"^[\w:#<>.]+ #\d+ : ", "", msg)
         # long type dumps: keep the leading sentence
@@ -70,8 +73,10 @@ def crash_key_of(text):
         return "cranelift-error"
     if "comptime compilation panicked" in text:
         return "crash:comptime-compilation-panicked"
-    if "stack overflow" in text:
+    if "stack overflow" in text or "has overflowed its stack" in text:
         return "crash:stack-overflow"
+    if "memory allocation of" in text and "failed" in text:
+        return "crash:memory-exhausted"
     return None
 
 
@@ -85,7 +90,7 @@ def error_lines(text):
 
 
 def run_case(scratch, files, main="main.capy", extra_args=(), run=True, compile_timeout=20, run_timeout=10,
-             keep=False, stdin=None, mod_dir=MOD_DIR, exe_args=()):
+             keep=False, stdin=None, mod_dir=MOD_DIR, exe_args=(), rlimit_as=None):
     """files: {relative path: text}. Returns Outcome."""
     n = next(_counter)
     d = os.path.join(scratch, f"c{n}")
@@ -99,9 +104,15 @@ def run_case(scratch, files, main="main.capy", extra_args=(), run=True, compile_
     o = Outcome()
     o.dir = d
     cmd = [CAPY, "build", main, "--mod-dir", mod_dir, "--color", "never", *extra_args]
+    pre = None
+    if rlimit_as:
+        import resource
+
+        def pre():
+            resource.setrlimit(resource.RLIMIT_AS, (rlimit_as, rlimit_as))
     try:
         p = subprocess.run(cmd, cwd=d, stdout=subprocess.PIPE, stderr=subprocess.STDOUT, timeout=compile_timeout,
-                           env={**os.environ, "RUST_BACKTRACE": "0"})
+                           env={**os.environ, "RUST_BACKTRACE": "0"}, preexec_fn=pre)
     except subprocess.TimeoutExpired as e:
         o.kind = "timeout"
         o.compiler_out = clean((e.stdout or b"").decode("utf-8", "replace"))[:4000]
